@@ -478,11 +478,23 @@ func (w *world) appendChecked(v []byte) {
 // reloadChecked re-opens the tree from its storage and continues with the reloaded instance.
 func (w *world) reloadChecked() bool {
 	n := len(w.list)
-	if n == 0 {
-		return false // nothing was ever stored; the engine reports "tree information does not exist" (not part of the statement)
-	}
 	var t2 *rmt.RegularMerkleTree
 	var err error
+	if n == 0 {
+		// Nothing was ever stored. The engine refuses to open such a store ("tree information does not exist"); the statement is silent
+		// on that. But IF a tree object is handed out, "reloading preserves the root" applies to it: root of the empty list, size 0
+		// (added after seeded change C11-n: a tolerant loadInfo handed out a tree with a zero-length root).
+		must(w.f, "NewRegularMerkleTreeWithPastData", w.ctx, func() { t2, err = rmt.NewRegularMerkleTreeWithPastData(w.db) })
+		if err == nil {
+			evid.R.Label("reload-of-empty-store-succeeded", 1)
+			if !bytes.Equal(t2.Root(), w.tr.Root()) || t2.Size() != 0 {
+				w.f.Fatalf("reload of a never-written tree succeeded with root %x size %d; the live empty tree has root %x size %d\n%s", t2.Root(), t2.Size(), w.tr.Root(), w.tr.Size(), w.ctx())
+			}
+		} else {
+			evid.R.Label("reload-of-empty-store-refused", 1)
+		}
+		return false
+	}
 	must(w.f, "NewRegularMerkleTreeWithPastData", w.ctx, func() { t2, err = rmt.NewRegularMerkleTreeWithPastData(w.db) })
 	if err != nil {
 		if n == 1 && !w.updated && err.Error() == "tree information does not exist" && evid.R.KnownFinding(sigF4) {
@@ -976,6 +988,7 @@ func runSpec(f fataler, s caseSpec) {
 	case "reload":
 		w2 := newWorld(f, s.DB)
 		defer w2.close()
+		w2.reloadChecked() // length 0: refused, or the empty tree
 		for _, v := range leaves {
 			w2.appendChecked(v)
 			w2.reloadChecked()
@@ -1077,6 +1090,8 @@ func TestReloadExhaustive(t *testing.T) {
 	f := recFatal{t, func() caseSpec { return caseSpec{Op: "reload", DB: kind, Leaves: hxs(leaves[:cur+1])} }}
 	w := newWorld(f, kind)
 	defer w.close()
+	w.reloadChecked() // length 0: refused, or the empty tree
+	evid.R.Case(fmt.Sprintf("reload|%s|0", kind), false, nil, "reload-exhaustive", "reload-length-0")
 	for n := 1; n <= N; n++ {
 		cur = n - 1
 		w.aliasGrow, w.scratchAppend = (n+3)%6, n%2 == 0
